@@ -50,6 +50,58 @@ type c28Req struct {
 	Time     string   `json:"time,omitempty"`    // X-Honeycomb-Event-Time
 	Rate     string   `json:"rate,omitempty"`    // X-Honeycomb-Samplerate
 	UA       string   `json:"ua,omitempty"`
+	// Huge (family "accepted but internally huge"): the body is built from this
+	// description instead of Base: small on the wire (under every HTTP/gRPC
+	// limit), > 1 MB or > 5 MB once refinery holds it as messagepack.
+	Huge *c28Huge `json:"huge,omitempty"`
+}
+
+type c28Huge struct {
+	Kind string `json:"kind"` // json-number-array | json-many-fields | otlp-big-attr
+	N    int    `json:"n"`    // array length / number of fields / attribute bytes
+}
+
+// c28HugeBody builds the request body of a Huge request and says how many
+// events it carries (the big one first, then small companions where the
+// endpoint takes several).
+func c28HugeBody(r c28Req) (body []byte, ct string, events int) {
+	h := r.Huge
+	switch h.Kind {
+	case "json-number-array", "json-many-fields":
+		var data strings.Builder
+		if h.Kind == "json-number-array" {
+			// every JSON number becomes a 9-byte float64 inside refinery
+			data.WriteString(`{"name":"numbers","vals":[`)
+			data.WriteString(strings.TrimSuffix(strings.Repeat("1,", h.N), ","))
+			data.WriteString(`]}`)
+		} else {
+			data.WriteString(`{"name":"fields"`)
+			for i := 0; i < h.N; i++ {
+				fmt.Fprintf(&data, `,"f%d":1`, i)
+			}
+			data.WriteString(`}`)
+		}
+		if strings.HasPrefix(r.Endpoint, "/1/batch") {
+			return []byte(`[{"samplerate":1,"data":` + data.String() + `},{"samplerate":1,"data":{"name":"small"}}]`), "application/json", 2
+		}
+		return []byte(data.String()), "application/json", 1
+	case "otlp-big-attr":
+		big := strings.Repeat("x", h.N)
+		if strings.Contains(r.Endpoint, "logs") || strings.Contains(r.Endpoint, "Logs") {
+			lg := c28BaseLogs()
+			recs := lg.ResourceLogs[0].ScopeLogs[0].LogRecords
+			recs[0].Attributes = append(recs[0].Attributes, c28KV("big", c28S(big)))
+			b, _ := proto.Marshal(lg)
+			return b, "application/protobuf", 2
+		}
+		tr := c28BaseTrace()
+		sp := tr.ResourceSpans[0].ScopeSpans[0].Spans
+		sp[0].Attributes = append(sp[0].Attributes, c28KV("big", c28S(big)))
+		sp[0].Events, sp[0].Links = nil, nil
+		b, _ := proto.Marshal(tr)
+		return b, "application/protobuf", 2
+	}
+	return nil, "application/json", 0
 }
 
 // ---- base bodies
@@ -544,6 +596,10 @@ var c28ZstdEnc, _ = zstd.NewWriter(nil, zstd.WithEncoderConcurrency(1))
 
 // c28Wire computes the bytes on the wire and the headers of a request.
 func c28Wire(r c28Req) (body []byte, ct, ce string) {
+	if r.Huge != nil {
+		body, ct, _ = c28HugeBody(r)
+		return body, ct, ""
+	}
 	base, ok := c28Bases[r.Base]
 	if !ok {
 		base = c28Bases["empty"]
@@ -764,7 +820,57 @@ func genC28LookupHistory(t *rapid.T) c28Case {
 	return c28Case{Mode: "request", Reqs: reqs}
 }
 
+// genC28Huge: the family "accepted but internally huge". One request whose body
+// is small on the wire but becomes > 1 MB (the per-event limit of the API) or
+// > 5 MB (more than a whole outgoing batch) inside refinery, with small
+// companions in the same batch and a small request behind it; then the SUT is
+// shut down and must flush, report and return (see the drain step).
+func genC28Huge(t *rapid.T) c28Case {
+	r := c28Req{Method: "POST", Key: "legacy", Dataset: "ds", Huge: &c28Huge{}}
+	over5 := rapid.IntRange(0, 3).Draw(t, "over-5MB") != 0 // mostly beyond a whole batch
+	switch rapid.IntRange(0, 5).Draw(t, "huge-kind") {
+	case 0, 1, 2:
+		r.Huge.Kind, r.Huge.N = "json-number-array", 130_000
+		if over5 {
+			r.Huge.N = 600_000
+		}
+	case 3:
+		r.Huge.Kind, r.Huge.N = "json-many-fields", 70_000
+		if over5 {
+			r.Huge.N = 330_000
+		}
+	default:
+		r.Huge.Kind, r.Huge.N = "otlp-big-attr", 1_200_000
+		if over5 {
+			r.Huge.N = 5_300_000
+		}
+	}
+	if r.Huge.Kind == "otlp-big-attr" {
+		switch rapid.IntRange(0, 3).Draw(t, "otlp-where") {
+		case 0:
+			r.Target, r.Endpoint = "grpc", c28GRPCMethods[0]
+		case 1:
+			r.Target, r.Endpoint = "grpc", c28GRPCMethods[1]
+		case 2:
+			r.Target, r.Endpoint = "incoming", "/v1/traces"
+		default:
+			r.Target, r.Endpoint = "incoming", "/v1/logs"
+		}
+	} else {
+		r.Target = rapid.SampledFrom([]string{"incoming", "incoming", "peer"}).Draw(t, "listener")
+		r.Endpoint = rapid.SampledFrom([]string{"/1/batch/{ds}", "/1/batch/{ds}", "/1/events/{ds}"}).Draw(t, "endpoint")
+	}
+	reqs := []c28Req{r}
+	if rapid.Bool().Draw(t, "small-request-behind") {
+		reqs = append(reqs, genC28PlainReq(t, "behind", "legacy"))
+	}
+	return c28Case{Mode: "request", Reqs: reqs, Drain: true}
+}
+
 func genC28Request(t *rapid.T) c28Case {
+	if rapid.IntRange(0, 14).Draw(t, "huge-family") == 14 {
+		return genC28Huge(t)
+	}
 	if rapid.IntRange(0, 3).Draw(t, "lookup-failure-history") == 3 {
 		return genC28LookupHistory(t)
 	}
